@@ -12,6 +12,10 @@ import NixModel.Generated.FormatConst
   Overwrite ⇒ create/truncate with a fresh header; otherwise open with the mapped access flag;
   then `_check_header`, then the `data`/`metadata` groups and the two timestamps are created when
   absent (which HDF5 refuses through an `ACC_RDONLY` handle).
+* `openPath` is `File.__init__` for a path in ANY condition (`Node`: missing, an HDF5 file, a file
+  libhdf5 cannot open, a directory), written over the generated shape of `__init__` (guards,
+  create-or-open condition, rebound mode, ordered tail); `Lemmas/C11Path.lean` proves that on
+  missing paths and HDF5 files it is `openFile`.
 * A session is the pair (mode, access flag).  nixio itself has no write guard: every mutator goes
   to h5py, and libhdf5 refuses writes through a handle opened `ACC_RDONLY`.  That runtime
   behaviour is the stand-in `step`: a mutator (any function on the content) is applied iff the
@@ -206,6 +210,9 @@ depending on the call; the class is not modelled) -/
 inductive Refusal where
   | err (e : Err)
   | h5ReadOnly
+  /-- h5py's OSError: libhdf5 cannot open / create what is at the path (no such file, not an HDF5
+  file, truncated file, a directory) -/
+  | osError
   deriving DecidableEq, Repr
 
 structure Session where
@@ -273,6 +280,126 @@ def openFile (mode : Str) (disk : Option Disk) (freshId : Str) : Option Disk × 
         -- `h5f.open` is only modelled for the two non-truncating flags
         if acc = .trunc then (some d, .error (.err .valueError))
         else checkAndFinish mode acc d
+
+/-! ## Paths in every condition; `File.__init__` over the generated shape -/
+
+/-- what a path holds.  `blob`: a regular file that libhdf5 cannot open (not HDF5, truncated, wiped
+signature …; `empty` = zero bytes), identified by an opaque tag standing for its bytes; `dir`: a
+directory (with an opaque tag for what is in it) -/
+inductive Node where
+  | missing
+  | hdf (d : Disk)
+  | blob (tag : Str) (empty : Bool)
+  | dir (tag : Str)
+  deriving DecidableEq, Repr
+
+/-- `os.path.exists` -/
+def Node.ex : Node → Bool
+  | .missing => false
+  | _ => true
+/-- `os.path.isfile` -/
+def Node.isf : Node → Bool
+  | .hdf _ => true
+  | .blob _ _ => true
+  | _ => false
+/-- `os.path.getsize(path) == 0` (an HDF5 file is never empty) -/
+def Node.emp : Node → Bool
+  | .blob _ e => e
+  | _ => false
+
+def Node.ofDisk : Option Disk → Node
+  | none => .missing
+  | some d => .hdf d
+
+/-- the guards of `File.__init__` in source order; a guard that validates the mode first raises
+`map_file_mode`'s ValueError for an invalid letter -/
+def runGuards (mode : Str) (n : Node) : List ((Str → Bool → Bool → Bool → Bool) × Bool × Err) → Except Err Unit
+  | [] => .ok ()
+  | (c, validates, e) :: gs =>
+    if c mode n.ex n.isf n.emp then
+      if validates then
+        match mapFileMode mode with
+        | .error e' => .error e'
+        | .ok _ => .error e
+      else .error e
+    else runGuards mode n gs
+
+/-- one statement of the tail of `File.__init__`; each `ensure…` is a write when the thing is
+absent, refused through a read-only handle -/
+def tailStep (mode : Str) (acc : Acc) (d : Disk) : InitStep → Disk × Except Refusal Unit
+  | .checkHeader =>
+    match checkHeader mode d.header with
+    | .error e => (d, .error (.err e))
+    | .ok () => (d, .ok ())
+  | .setMode => (d, .ok ())
+  | .ensureData =>
+    if d.hasData then (d, .ok ()) else if acc = .rdonly then (d, .error .h5ReadOnly)
+    else ({ d with hasData := true }, .ok ())
+  | .ensureMeta =>
+    if d.hasMeta then (d, .ok ()) else if acc = .rdonly then (d, .error .h5ReadOnly)
+    else ({ d with hasMeta := true }, .ok ())
+  | .ensureCreated =>
+    if d.hasCreated then (d, .ok ()) else if acc = .rdonly then (d, .error .h5ReadOnly)
+    else ({ d with hasCreated := true }, .ok ())
+  | .ensureUpdated =>
+    if d.hasUpdated then (d, .ok ()) else if acc = .rdonly then (d, .error .h5ReadOnly)
+    else ({ d with hasUpdated := true }, .ok ())
+
+def runTail (mode : Str) (acc : Acc) : Disk → List InitStep → Disk × Except Refusal Unit
+  | d, [] => (d, .ok ())
+  | d, st :: sts =>
+    match tailStep mode acc d st with
+    | (d', .error r) => (d', .error r)
+    | (d', .ok ()) => runTail mode acc d' sts
+
+/-- the tail of `File.__init__` in the order of the source (`initTail`) -/
+def checkAndFinishT (mode : Str) (acc : Acc) (d : Disk) : Node × Except Refusal Session :=
+  match runTail mode acc d initTail with
+  | (d', .error r) => (.hdf d', .error r)
+  | (d', .ok ()) => (.hdf d', .ok { mode := mode, acc := acc })
+
+/-- what libhdf5 finds when `h5f.open(path, flags)` is called: an HDF5 file is opened; an EMPTY file
+opened with write access is initialised as an HDF5 file without any attribute; everything else
+(no file, not HDF5, truncated, a directory) is an OSError -/
+def h5fOpen (acc : Acc) : Node → Option Disk
+  | .hdf d => some d
+  | .blob _ true =>
+    if acc = .rdwr then
+      some { header := ⟨none, none, none⟩, hasData := false, hasMeta := false, hasCreated := false,
+             hasUpdated := false, content := [] }
+    else none
+  | _ => none
+
+/-- `File.__init__(path, mode)` for a path in any condition, following the generated shape: the
+guards, then `h5f.create` (with the flag of the rebound mode) or `h5f.open` (with the flag of the
+mode), then the tail -/
+def openPath (mode : Str) (n : Node) (freshId : Str) : Node × Except Refusal Session :=
+  match runGuards mode n initGuards with
+  | .error e => (n, .error (.err e))
+  | .ok () =>
+    if initCreateCond mode n.ex n.isf n.emp then
+      match mapFileMode initCreateMode with
+      | .error e => (n, .error (.err e))
+      | .ok acc =>
+        -- `h5f.create` is only modelled for the truncating flag
+        if acc ≠ .trunc then (n, .error (.err .valueError))
+        else
+          match n with
+          | .dir _ => (n, .error .osError)
+          | _ => checkAndFinishT initCreateMode acc (freshDisk freshId)
+    else
+      match mapFileMode mode with
+      | .error e => (n, .error (.err e))
+      | .ok acc =>
+        -- `h5f.open` is only modelled for the two non-truncating flags
+        if acc = .trunc then (n, .error (.err .valueError))
+        else
+          match h5fOpen acc n with
+          | none => (n, .error .osError)
+          | some d => checkAndFinishT mode acc d
+
+/-- `File.open(path)` / `File(path)` without a mode -/
+def openDefault (n : Node) (freshId : Str) : Node × Except Refusal Session := openPath defaultModeOpen n freshId
 
 /-! ## Sessions: reads and mutators -/
 
@@ -353,7 +480,7 @@ inductive Ev where
   | remove
 
 structure World where
-  disk : Option Disk
+  node : Node
   sess : Option Session
 
 /-- result of one event -/
@@ -370,14 +497,14 @@ def evStep (w : World) : Ev → World × EvOut
     match w.sess with
     | some _ => (w, .ignored)
     | none =>
-      match openFile mode w.disk fid with
-      | (d', .ok s) => ({ disk := d', sess := some s }, .opened s)
-      | (d', .error r) => ({ disk := d', sess := none }, .refused r)
+      match openPath mode w.node fid with
+      | (n', .ok s) => ({ node := n', sess := some s }, .opened s)
+      | (n', .error r) => ({ node := n', sess := none }, .refused r)
   | .op o =>
-    match w.sess, w.disk with
-    | some s, some d =>
+    match w.sess, w.node with
+    | some s, .hdf d =>
       let (d', out) := step s d o
-      ({ disk := some d', sess := some s }, .out out)
+      ({ node := .hdf d', sess := some s }, .out out)
     | _, _ => (w, .ignored)
   | .close =>
     match w.sess with
@@ -386,7 +513,7 @@ def evStep (w : World) : Ev → World × EvOut
   | .remove =>
     match w.sess with
     | some _ => (w, .ignored)
-    | none => ({ disk := none, sess := none }, .closed)
+    | none => ({ node := .missing, sess := none }, .closed)
 
 def evRun : World → List Ev → World × List EvOut
   | w, [] => (w, [])
